@@ -18,6 +18,7 @@ PROPERTY = "C05"
 LEVEL = "model_checking"
 
 COEFS = [None, 0, 1, -2, 0.5]
+COEFS_TINY = [None, 1, 1e-9, -3e-9]      # badly scaled expressions: tiny coefficients are coefficients
 KEYS9 = ["p0p0", "p0p1", "p1p0", "p1p1", "p0p2", "p2p0", "e0", "e1", "one"]
 KEYS7 = ["p0p0", "p0p1", "p1p0", "p0p2", "p2p0", "e0", "one"]
 
@@ -86,11 +87,11 @@ class ShapeWorld(object):
         return probs
 
 
-def run_shapes(keys, first):
+def run_shapes(keys, first, alphabet=None):
     w = ShapeWorld()
     ev = nontriv = 0
     viol, vals = [], set()
-    for rest in itertools.product(COEFS, repeat=len(keys) - len(first)):
+    for rest in itertools.product(alphabet or COEFS, repeat=len(keys) - len(first)):
         coefs = tuple(first) + rest
         probs = w.judge(keys, coefs)
         ev += 1
@@ -315,6 +316,7 @@ def shards(tier):
         out += [dict(kind="shapes", keys="9", first=[a, b]) for a in COEFS for b in COEFS]
     n = len(model_cases(tier))
     out += [dict(kind="models", lo=lo, hi=min(n, lo + CHUNK)) for lo in range(0, n, CHUNK)]
+    out += [dict(kind="shapes", keys="7", first=[c], tiny=True) for c in COEFS_TINY]
     from mc.checks.c01 import example_cases
     ne = len(example_cases(tier))
     out += [dict(kind="examples", lo=lo, hi=min(ne, lo + 8)) for lo in range(0, ne, 8)]
@@ -324,7 +326,7 @@ def shards(tier):
 def run_shard(shard, tier):
     if shard["kind"] == "shapes":
         keys = KEYS7 if shard["keys"] == "7" else KEYS9
-        ev, nontriv, viol = run_shapes(keys, shard["first"])
+        ev, nontriv, viol = run_shapes(keys, shard["first"], COEFS_TINY if shard.get("tiny") else None)
         return dict(evaluations=ev, states=ev, transitions=2 * ev, nontrivial=nontriv, outcomes={"shape": ev},
                     violations=viol, samples=[dict(kind="shape", keys=keys, coefs=[shard["first"][0], 1, -2] + [None] * (len(keys) - 3))],
                     extra={"shapes": ev})
@@ -381,7 +383,8 @@ def meta(tier):
     nk = 7 if tier == "quick" else 9
     return dict(
         rule="(shapes) all 5^%d coefficient dictionaries over %d keys (mirrored and diagonal inner products, leaf "
-             "expressions, constant; each key absent or with coefficient 0, 1, -2, 1/2) + leaf expressions, through the "
+             "expressions, constant; each key absent or with coefficient 0, 1, -2, 1/2) + all 4^7 dictionaries over 7 keys with coefficients "
+             "of {absent, 1, 1e-9, -3e-9} + leaf expressions, through the "
              "dense and the sparse encoder, compared exactly with the reference functional; (models) every grammar model "
              "x {cvxpy, MOSEK stand-in}: the solver-side problem is read back (cvxpy: basis evaluation of every "
              "constraint expression; MOSEK: recorded task data) and compared call by call with the declared objects "
